@@ -138,6 +138,7 @@ CHECKS = {
         "level_note": "Trusted: the expected-effective-config function written from docs/src/HOOKS.md; include lists are compared as sets.",
         "fuzz": [{"part": "bytes", "target": "FuzzBytes", "seconds": 180}],
         "parts": [
+            {"part": "v0", "test": "TestV0", "quick": {"checks": 3000, "shards": 4}, "thorough": {"checks": 300000, "shards": 16, "timeout": 3000}},
             {"part": "config", "test": "TestConfig", "quick": {"checks": 4000, "shards": 8}, "thorough": {"checks": 200000, "shards": 16, "timeout": 3000}},
             {"part": "bytes", "test": "TestBytes", "quick": {"checks": 16000, "shards": 8}, "thorough": {"checks": 1000000, "shards": 16, "timeout": 3000}},
         ],
